@@ -45,6 +45,7 @@ impl SwiftField for Field90D {
     where
         Self: Sized,
     {
+        super::swift_utils::require_ascii(input, "Field 90D")?;
         let mut remaining = input;
 
         // Parse number of transactions (5n)
@@ -149,6 +150,7 @@ impl SwiftField for Field90C {
     where
         Self: Sized,
     {
+        super::swift_utils::require_ascii(input, "Field 90C")?;
         let mut remaining = input;
 
         // Parse number of transactions (5n)
